@@ -26,8 +26,9 @@ RULE = (
     "(C03 generator + non-ASCII / space / percent witnesses + '//evil.com' prefixed forms) x methods is matched "
     "on an http adapter at script root '/'; every (path, method) that redirects is re-run for every query form "
     "and on every other binding (https+port+/app, subdomain, ws with websocket rules); each redirect is followed "
-    "as a server would (percent-decode once, query string forwarded) until it stops. evaluation = one redirect "
-    "chain checked; non-trivial = distinct (map, config, binding, path, method, query form) that redirected."
+    "as a server would (percent-decode once, query string forwarded) until it stops. evaluation = one (map, config, "
+    "order, binding, path, method, query form) matched and, if it redirected, checked and followed (n_chains); "
+    "non-trivial = distinct ones that redirected."
 )
 ASSUMPTIONS = [
     "redirect_to targets are outside the claim (not generated)",
@@ -324,6 +325,7 @@ def check_map(combo, R, tier):
                     for method in methods:
                         first = step(ad0, p, method, None)
                         R.count("matches")
+                        R.ev()
                         R.use("first:" + (first[0] if first[0] != "http" else first[1]))
                         if first[0] == "redir":
                             redirecting.append((p, method, first))
@@ -368,7 +370,9 @@ def check_map(combo, R, tier):
                                          "query": _enc_q(q), "problems": ["depends-on-binding"], "fd": False})
                             continue
                         problems, chain = check_chain(ad, b, p, method, q, first, acc)
-                        R.ev()
+                        if (bi, qi) != (0, 0):
+                            R.ev()
+                        R.count("chains")
                         R.count("matches", len(chain[0]))
                         R.nontrivial((cfg, bi, p, method, qi))
                         R.outcome((chain[0], chain[1]))
@@ -390,7 +394,7 @@ def check_map(combo, R, tier):
                                          "merge": merge, "rd": rd, "binding": b, "path": p, "method": method,
                                          "query": _enc_q(q), "problems": problems, "first_url": first[1],
                                          "chain": chain, "fd": fd})
-                        elif R.counts["evaluations"] % 5003 == 1:
+                        elif R.counts["chains"] % 5003 == 1:
                             R.sample({"rules": names, "strict_slashes": strict, "merge_slashes": merge,
                                       "redirect_defaults": rd, "binding": b[:4], "path": p, "method": method,
                                       "query": repr(q), "first_redirect": first[1], "hops": chain[0],
@@ -411,7 +415,7 @@ def finalize(R, tier):
     missing = need - R.used
     if missing:
         raise core.Broken(f"vacuity: never exercised {sorted(missing)}")
-    if R.counts["evaluations"] < 5000:
+    if R.counts["chains"] < 5000:
         raise core.Broken("vacuity: hardly any redirect was followed")
     return {"bound": "maps <= 2 of 33 rules, <= 3 of 12" if tier == "quick" else "maps <= 2 of 33, <= 3 (restricted), 4 of 12",
             "exhaustive": True,
